@@ -8,7 +8,9 @@ into lean/PyrollModel/Gen/C09.lean + Gen/C09Contours.lean; the theorems of lean/
 generated terms.  K - the Float run of the generated placement applied to the real groove's contour points is compared
 vertex by vertex with the real `roll_pass.contour_lines`; the symbolic hook interpreter (lean/PyrollModel/PassGeom.lean)
 is run on exactly the read sequences the real fresh passes are put through (values, AttributeErrors, `__cache__` keys,
-resolution order of the real `Hook.functions`); every closed formula is evaluated against the python function it came from.
+resolution order of the real `Hook.functions`), and on the life cycle "constructed bare - looked at - member assigned"
+(`lateSession`: answers of the looks, of the reads, cache keys); every closed formula is evaluated against the python function
+it came from.
 The independent oracle checks the property text on the real objects.
 """
 import itertools
@@ -28,8 +30,11 @@ RULE = ("every groove class (20 parametric classes from a catalogue of feasible 
         "radii/depth jittered; SplineGroove with random symmetric polylines) x pad angle matching the roll count (0 deg "
         "two rolls, 30 deg three) x gap log-uniform 1e-4..0.5 of the groove width and exactly 0 x each given member "
         "(gap / height / inscribed-circle diameter) x every read order of all members (and of the other members only) on "
-        "fresh unsolved passes x feeding each derived member back into a fresh pass. non-trivial = gap > 0 or a derived "
-        "member given; distinct by (class, rounded parameters, gap, given, order).")
+        "fresh unsolved passes x feeding each derived member back into a fresh pass x the second life cycle of a pass object: "
+        "constructed without any member, looked at 0-3 times while undetermined (repr / str / contour_lines / members / "
+        "usable_width / usable and tip cross-section / tip_width / technological contour / target_width), the given member "
+        "assigned afterwards, then a random read order, the contour statements and the usable cross-section. non-trivial = "
+        "gap > 0 or a derived member given; distinct by (class, rounded parameters, gap, given, order[, looks]).")
 ASSUMPTIONS = [
     "shapely/GEOS: translate/rotate act vertex-wise with the arithmetic modelled in PassGeom.rotPt (validated vertex by vertex "
     "on every case); clip_by_rect of a line string to an x-window is modelled by its extreme coordinates only (validated through "
@@ -415,37 +420,39 @@ def _line_dist(p, a, b):
     return abs((p[0] - a[0]) * uy - (p[1] - a[1]) * ux) / n
 
 
-def _oracle_geometry(ctx, which, groove, gap, rp, replay):
-    """the contour statements of the property, measured on the real `contour_lines`"""
+def _oracle_geometry(ctx, which, groove, gap, rp, replay, kp="", cl=None):
+    """the contour statements of the property, measured on the real `contour_lines`; `kp` prefixes the violation keys
+    (which life cycle of the pass object the statement failed in)"""
     import numpy as np
-    cl = rp.contour_lines
+    if cl is None:
+        cl = rp.contour_lines
     lines = [np.array(g.coords) for g in cl.geoms]
     scale = max(float(np.abs(np.concatenate(lines)).max()), 1e-300)
     tol = 1e-11 * scale
     if which == "two":
         if len(lines) != 2:
-            ctx.violation("two-roll-line-count", f"{len(lines)} contour lines", replay)
+            ctx.violation(kp + "two-roll-line-count", f"{len(lines)} contour lines", replay)
             return lines
         up, lo = lines
         if not (_same_vertex_set(-up, lo, tol) and _same_vertex_set(-lo, up, tol)):
-            ctx.violation("two-roll-half-turn", "upper and lower contour are not images of each other under a half turn", replay)
+            ctx.violation(kp + "two-roll-half-turn", "upper and lower contour are not images of each other under a half turn", replay)
         # faces: the end segments of each line; their end points are `gap` apart (vertically: faces are horizontal at 0 deg)
         seps = [e[1] - f[1] for e in (up[0], up[-1]) for f in (lo[0], lo[-1])]
         if any(abs(sp - gap) > tol for sp in seps):
-            ctx.violation("two-roll-face-separation", f"face end points are {seps} apart, gap={gap}", replay)
+            ctx.violation(kp + "two-roll-face-separation", f"face end points are {seps} apart, gap={gap}", replay)
         if type(groove).__name__ != "SplineGroove" and \
                 any(abs(ln[0][1] - ln[1][1]) > tol or abs(ln[-1][1] - ln[-2][1]) > tol for ln in (up, lo)):
-            ctx.violation("two-roll-face-not-level", "a face segment of a 0-degree groove is not horizontal", replay)
+            ctx.violation(kp + "two-roll-face-not-level", "a face segment of a 0-degree groove is not horizontal", replay)
         if min(abs(up[0][0] + lo[0][0]), abs(up[0][0] + lo[-1][0])) > tol:
-            ctx.violation("two-roll-face-offset", "the faces of the two rolls do not end above each other", replay)
+            ctx.violation(kp + "two-roll-face-offset", "the faces of the two rolls do not end above each other", replay)
     else:
         if len(lines) != 3:
-            ctx.violation("three-roll-line-count", f"{len(lines)} contour lines", replay)
+            ctx.violation(kp + "three-roll-line-count", f"{len(lines)} contour lines", replay)
             return lines
         for i in range(3):
             img = _rot(lines[i], 120)
             if not any(_same_vertex_set(img, lines[j], tol) for j in range(3) if j != i):
-                ctx.violation("three-roll-120", f"contour {i} turned by 120 degrees is none of the other contours", replay)
+                ctx.violation(kp + "three-roll-120", f"contour {i} turned by 120 degrees is none of the other contours", replay)
                 break
         for i in range(3):
             j = (i + 1) % 3
@@ -453,7 +460,7 @@ def _oracle_geometry(ctx, which, groove, gap, rp, replay):
             d = [math.hypot(*(lines[i][e] - lines[j][f])) for e, f in ends]
             k = int(np.argmin(d))
             if abs(d[k] - gap) > tol:
-                ctx.violation("three-roll-neighbour-gap", f"neighbouring face end points of contours {i},{j} are {d[k]} apart, "
+                ctx.violation(kp + "three-roll-neighbour-gap", f"neighbouring face end points of contours {i},{j} are {d[k]} apart, "
                               f"gap={gap}", replay)
                 break
             e, f = ends[k]
@@ -464,26 +471,28 @@ def _oracle_geometry(ctx, which, groove, gap, rp, replay):
             if type(groove).__name__ != "SplineGroove" and (
                     abs(_line_dist(c, a, b) - gap) > tol or abs(_line_dist(dd, a, b) - gap) > tol or
                     abs(_line_dist(a, c, dd) - gap) > tol):
-                ctx.violation("three-roll-face-separation", f"faces of contours {i},{j} are not parallel at distance gap={gap}",
+                ctx.violation(kp + "three-roll-face-separation", f"faces of contours {i},{j} are not parallel at distance gap={gap}",
                               replay)
                 break
     return lines
 
 
-def _oracle_usable_cs(ctx, which, rp, uw_pass, replay):
+def _oracle_usable_cs(ctx, which, rp, uw_pass, replay, kp=""):
     """usable cross-section: spans exactly the usable width, has the symmetry of the pass"""
     import numpy as np
+    from shapely import make_valid
     from shapely.affinity import rotate
+    from shapely.errors import GEOSException
     try:
         ucs = rp.usable_cross_section
     except Exception as ex:
         if _in_pyroll(ex):
-            ctx.violation(f"{which}-usable-cs-raises" + ("-zero-gap" if replay.get("gap") == 0 else ""),
+            ctx.violation(kp + f"{which}-usable-cs-raises" + ("-zero-gap" if replay.get("gap") == 0 else ""),
                           f"usable_cross_section raised {type(ex).__name__}: {ex}"[:200], replay)
             return
         raise
     if ucs.geom_type != "Polygon" or ucs.is_empty:
-        ctx.violation(f"{which}-usable-cs-not-a-polygon", f"usable_cross_section is a {ucs.geom_type} "
+        ctx.violation(kp + f"{which}-usable-cs-not-a-polygon", f"usable_cross_section is a {ucs.geom_type} "
                       f"(empty={ucs.is_empty}) instead of one polygon", replay)
         return
     v = np.array(ucs.exterior.coords)
@@ -491,7 +500,7 @@ def _oracle_usable_cs(ctx, which, rp, uw_pass, replay):
     tol = 1e-9 * scale
     if which == "two":
         if abs(v[:, 0].max() - uw_pass / 2) > tol or abs(v[:, 0].min() + uw_pass / 2) > tol:
-            ctx.violation("usable-cs-span", f"usable cross-section spans [{v[:, 0].min()}, {v[:, 0].max()}], usable width {uw_pass}",
+            ctx.violation(kp + "usable-cs-span", f"usable cross-section spans [{v[:, 0].min()}, {v[:, 0].max()}], usable width {uw_pass}",
                           replay)
         turn = 180
     else:
@@ -500,21 +509,142 @@ def _oracle_usable_cs(ctx, which, rp, uw_pass, replay):
             dx, dy = math.cos(math.radians(ang)), math.sin(math.radians(ang))
             ext = float((v[:, 0] * dx + v[:, 1] * dy).max())
             if abs(ext - uw_pass / 2) > tol:
-                ctx.violation("usable-cs-span", f"usable cross-section reaches {ext} towards the gap at {ang} degrees, "
+                ctx.violation(kp + "usable-cs-span", f"usable cross-section reaches {ext} towards the gap at {ang} degrees, "
                               f"usable width/2 = {uw_pass / 2}", replay)
                 break
         turn = 120
     a = ucs.area
     if a > 0:
-        sd = ucs.symmetric_difference(rotate(ucs, turn, origin=(0, 0))).area
+        try:
+            sd = ucs.symmetric_difference(rotate(ucs, turn, origin=(0, 0))).area
+        except GEOSException:
+            # GEOS cannot overlay a self-touching / self-crossing ring: judge the symmetry on the repaired polygon; if even
+            # that fails the symmetry statement cannot be evaluated on this answer (counted, no verdict)
+            try:
+                fixed = make_valid(ucs)
+                sd = fixed.symmetric_difference(rotate(fixed, turn, origin=(0, 0))).area
+            except GEOSException:
+                ctx.count("usable-cs-symmetry-not-evaluable")
+                return
         # refine_cross_section re-samples the boundary: symmetric up to the sampling, not to rounding
         if sd > 1e-6 * a:
-            ctx.violation("usable-cs-symmetry", f"usable cross-section differs from its image under the {turn} degree turn by "
+            ctx.violation(kp + "usable-cs-symmetry", f"usable cross-section differs from its image under the {turn} degree turn by "
                           f"area {sd} of {a}", replay)
 
 
 # other quantities of the opening that share helpers / memoised geometry with the usable cross-section
 PRE_READS = ["tip_cross_section", "tip_width", "contour_lines", "height", "usable_width"]
+
+
+# life cycle "dimensioned late": what a user, a notebook or a logger asks of a pass object that was constructed WITHOUT
+# gap / height / inscribed-circle diameter (a stand taken from a roll catalogue while a sequence is being set up), before one
+# of them is assigned.  What these looks answer is not C09's subject (the opening is not determined yet: failing is as
+# legitimate as answering) - but once a member IS given, the opening must be the one belonging to it.
+LOOKS = {
+    "two": ["repr", "str", "contour_lines", "gap", "height", "usable_width", "usable_cross_section", "tip_width",
+            "tip_cross_section", "technologically_orientated_contour_lines", "target_width"],
+    "three": ["repr", "str", "contour_lines", "gap", "height", "inscribed_circle_diameter", "usable_width",
+              "usable_cross_section", "tip_width", "tip_cross_section", "technologically_orientated_contour_lines",
+              "target_width"],
+}
+LATE = "dimensioned-late"
+
+
+def _model_looks(which):
+    """the looks the Lean interpreter knows (`Probe`): the hooks of the class tables and the property `contour_lines`"""
+    return [x for x in LOOKS[which] if x in HOOKS[which] or x == "contour_lines"]
+
+
+def _look(rp, what):
+    """one look at a pass whose opening is undetermined; whatever pyroll answers or raises is accepted"""
+    try:
+        if what == "repr":
+            repr(rp)
+        elif what == "str":
+            str(rp)
+        else:
+            getattr(rp, what)
+    except Exception as ex:
+        if not _in_pyroll(ex):
+            raise
+
+
+def _random_looks(rng, which):
+    if rng.random() < 0.12:
+        return []               # dimensioned by assignment instead of by constructor argument, not looked at before
+    return [rng.choice(LOOKS[which]) for _ in range(rng.randrange(1, 4))]
+
+
+def _late_case(ctx, which, groove, gap, vals, uw_pass, tolv, replay0, given, looks, order, do_cs):
+    """the property statements on a pass that was constructed bare, looked at, and given `given` by assignment afterwards:
+    giving any one member determines the others, the faces are separated by exactly the gap, the height is the extent of
+    the opening, the usable cross-section spans the usable width - whatever was asked of the object before"""
+    import numpy as np
+    kp = "late-"
+    rp = _fresh(which, groove)
+    for what in looks:
+        _look(rp, what)
+    setattr(rp, given, vals[given])
+    replay = dict(replay0, life_cycle=LATE, looked_at=list(looks), given=given, value=vals[given], order=list(order))
+    ctx.count("late:" + (looks[0] if looks else "not-looked-at"))
+    ctx.case([which, replay0["groove"]["cls"], round(gap / float(groove.usable_width), 9), LATE, looks, given, order])
+    try:
+        for name in order:
+            r = _read(rp, name)
+            if r[0] != "ok":
+                ctx.violation(f"{kp}{which}-read-{name}-given-{given}-fails",
+                              f"pass looked at ({looks}) before {given} was assigned: reading {name} (order {order}) "
+                              f"answered {r[1]}", replay)
+            elif name in vals and abs(r[1] - vals[name]) > tolv:
+                ctx.violation(f"{kp}{which}-{given}-to-{name}",
+                              f"pass looked at ({looks}) before {given} = {vals[given]} was assigned answers {name} = {r[1]}; "
+                              f"a pass constructed with that {given} answers {vals[name]}", replay)
+        r = _get(rp, "contour_lines")
+        if r[0] != "ok":
+            ctx.violation(f"{kp}{which}-contour-lines-unavailable",
+                          f"pass looked at ({looks}) before {given} was assigned: contour_lines raised {r[1]}", replay)
+            return
+        lines = _oracle_geometry(ctx, which, groove, gap, rp, replay, kp=kp, cl=r[1])
+        # the height is the extent of the opening (same measurement and tolerance as on the reference pass)
+        contour = np.array(groove.contour_points, dtype=float)
+        uw, depth = float(groove.usable_width), float(groove.depth)
+        if which == "two" and len(lines) == 2:
+            disc = 2 * abs(depth - float(contour[:, 1].max()))
+            ext = float(lines[0][:, 1].max() - lines[1][:, 1].min())
+            if abs(ext - vals["height"]) > tolv + disc:
+                ctx.violation(kp + "two-roll-height-extent", f"height {vals['height']} but the contours are {ext} apart at the "
+                              f"bottoms", replay)
+        elif which == "three" and len(lines) == 3:
+            inside = contour[np.abs(contour[:, 0]) <= uw / 2]
+            disc = 2 * abs(depth - (float(inside[:, 1].max()) if len(inside) else float("nan")))
+            sel = lines[1][np.abs(lines[1][:, 0]) <= uw / 2]
+            bottom = -float(sel[:, 1].min()) if len(sel) else float("nan")
+            if not abs(2 * bottom - vals["height"]) <= tolv + disc:
+                ctx.violation(kp + "three-roll-height-extent", f"height {vals['height']} but the lower groove bottom is at "
+                              f"-{bottom}", replay)
+        if do_cs and gap > 0:
+            _oracle_usable_cs(ctx, which, rp, uw_pass, dict(replay, read="usable_cross_section"), kp=kp)
+    except _ImplRaised as ex:
+        ctx.violation(f"{kp}{which}-hook-raises", f"pass looked at ({looks}) before {given} was assigned: {ex}"[:300], replay)
+
+
+def _late_k(ctx, which, groove, vals, tolv, replay0, given, looks, order, lean_lines, lean_expect):
+    """K for the same life cycle: real object vs `lateSession` of the interpreter (answers of the looks, of the reads, cache)"""
+    rp = _fresh(which, groove)
+    seen = []
+    try:
+        for what in looks:
+            r = _get(rp, what) if what == "contour_lines" else _read(rp, what)
+            seen.append((what, (r[0], None) if (what == "contour_lines" and r[0] == "ok") else r))
+        setattr(rp, given, vals[given])
+        got = [(name, _read(rp, name)) for name in order]
+    except _ImplRaised:
+        ctx.count("late-k-skipped:implementation-raised")      # the oracle (_late_case) reports it with the concrete input
+        return
+    cache = [k for k in rp.__cache__ if k in HOOKS[which]]
+    lean_lines.append(f"late {which} {','.join(looks) or '-'} {given} {','.join(order)}")
+    lean_expect.append(("late", (seen, got, cache, tolv),
+                        dict(replay0, life_cycle=LATE, looked_at=list(looks), given=given, value=vals[given], order=list(order))))
 
 
 def _model_chain(per_which, hook, mro):
@@ -525,7 +655,7 @@ def _model_chain(per_which, hook, mro):
     return out
 
 
-def _one_case(ctx, which, desc, groove, gap, lean_lines, lean_expect, do_cs=True, full_k=True, pre=None):
+def _one_case(ctx, which, desc, groove, gap, lean_lines, lean_expect, do_cs=True, full_k=True, pre=None, late=None):
     import numpy as np
     members = MEMBERS[which]
     uw, depth = float(groove.usable_width), float(groove.depth)
@@ -617,7 +747,15 @@ def _one_case(ctx, which, desc, groove, gap, lean_lines, lean_expect, do_cs=True
                      nontrivial=(gap > 0 or given != "gap"))
             ctx.count("given:" + given)
             for name in order:
-                r = _read(rp, name)
+                try:
+                    r = _read(rp, name)
+                except _ImplRaised as ex:
+                    # giving any one member determines the others: an exception other than the AttributeError of an
+                    # unavailable hook is reported with the concrete pass and read order
+                    ctx.violation(f"{which}-read-{name}-given-{given}-raises",
+                                  f"fresh pass with only {given} = {gval} given (order {order}): {ex}"[:300], replay)
+                    got.append((name, ("raised", str(ex)[:120])))
+                    continue
                 got.append((name, r))
                 if r[0] != "ok":
                     ctx.violation(f"{which}-read-{name}-given-{given}-fails",
@@ -627,10 +765,21 @@ def _one_case(ctx, which, desc, groove, gap, lean_lines, lean_expect, do_cs=True
                     ctx.violation(f"{which}-feedback-{given}-to-{name}",
                                   f"{name} = {vals[name]} derived {given} = {gval}; a fresh pass given that {given} answers "
                                   f"{name} = {r[1]}", replay)
-            if order in k_orders:
+            if order in k_orders and not any(r[0] == "raised" for _, r in got):
                 cache = [k for k in rp.__cache__ if k in HOOKS[which]]
                 lean_lines.append(f"interp {which} {given} {','.join(order)}")
                 lean_expect.append(("interp", (got, cache, tolv), replay))
+        # the same member given in the other life cycle of a pass object: constructed bare, looked at, dimensioned afterwards
+        forced = late is not None and late.get("given") == given
+        looks = list(late["looked_at"]) if forced else _random_looks(ctx.rng, which)
+        order = list(late["order"]) if forced else ctx.rng.choice(all_orders)
+        _late_case(ctx, which, groove, gap, vals, uw_pass, tolv, replay0, given, looks, order, do_cs)
+        ml = _model_looks(which)
+        k_late = [([x for x in looks if x in ml], order)]
+        if full_k:
+            k_late += [([x], members + ["usable_width"]) for x in ml] + [(ml, members), (ml[::-1] + ml, ["usable_width"] + members)]
+        for (kl, ko) in k_late:
+            _late_k(ctx, which, groove, vals, tolv, replay0, given, kl, ko, lean_lines, lean_expect)
     if len(ctx.samples) < 3:
         ctx.sample({"pass": which, "groove": desc, "gap": gap, "derived": vals})
 
@@ -663,6 +812,37 @@ def _check_lean(ctx, lean_lines, lean_expect):
             else:
                 ctx.validated()
                 ctx.count("placement-vertices-compared", sum(len(e) for e in exp))
+        elif kind == "late":
+            seen, got, cache, tolv = exp
+            try:
+                l_part, r_part, c_part = [x.strip() for x in o.split("#")]
+                mlooks = [] if l_part == "-" else [tuple(x.split("=")) for x in l_part.split()]
+                reads = [tuple(x.split("=")) for x in r_part.split()]
+                mcache = [] if c_part == "cache=-" else c_part[len("cache="):].split(",")
+            except Exception:
+                ctx.disagreement(f"model driver: unparsable late answer {o[:80]!r}", replay)
+                continue
+            ok = len(mlooks) == len(seen) and len(reads) == len(got) and mcache == cache
+            why = "" if ok else f"looks/reads/cache differ: model cache {mcache}, real {cache}"
+            for (n, r), (mn, mv) in list(zip(seen, mlooks)) + list(zip(got, reads)):
+                if n != mn:
+                    ok, why = False, "names differ"
+                elif r[0] == "attr":
+                    if mv != "!AttributeError":
+                        ok, why = False, f"{n}: real AttributeError, model {mv}"
+                elif r[0] != "ok":
+                    ok, why = False, f"{n}: real {r[1]}"
+                elif r[1] is None:
+                    if mv != "ok":
+                        ok, why = False, f"{n}: real answers, model {mv}"
+                elif mv.startswith("!") or mv == "ok":
+                    ok, why = False, f"{n}: real {r[1]}, model {mv}"
+                elif not abs(stub.unbits(mv) - r[1]) <= tolv * 1e-2:
+                    ok, why = False, f"{n}: real {r[1]}, model {stub.unbits(mv)}"
+            if ok:
+                ctx.validated()
+            else:
+                ctx.disagreement(f"hook interpreter (life cycle dimensioned late) vs real pass ({line}): {why}", replay)
         elif kind == "interp":
             got, cache, tolv = exp
             try:
@@ -756,4 +936,5 @@ def replay(ctx, data):
         return
     g = _build_groove(r["groove"])
     lines, expect = [], []
-    _one_case(ctx, r["pass"], r["groove"], g, r["gap"], lines, expect, pre=r.get("read_before"))
+    late = {k: r[k] for k in ("given", "looked_at", "order")} if r.get("life_cycle") == LATE else None
+    _one_case(ctx, r["pass"], r["groove"], g, r["gap"], lines, expect, pre=r.get("read_before"), late=late)
